@@ -1,12 +1,871 @@
-//! Streaming-body engine (C08, C09, C11, C17) — and its traces for C12 / C20.
+//! Streaming-body engine: interprets generated write/flush/poll/abort/drop histories against
+//! `streaming_body(..).build()` and an in-memory model. Serves C08, C09, C11 (sequential part),
+//! and produces traces for C12 / C20.
 
+use crate::drain::{check_eos_truthful, check_hints, check_terminated_stays, CountingWaker, Ev, Step, Trace};
 use crate::engine::*;
-use serde_json::Value;
+use crate::entity::HarnessError;
+use crate::oracle::inflate::{gunzip_prefix, Status};
+use crate::util::{content_byte, fingerprint};
+use bytes::Bytes;
+use http_body::Body as _;
+use proptest::collection::vec;
+use proptest::prelude::*;
+use serde::{Deserialize, Serialize};
+use serde_json::{json, Value};
+use std::io::{Read, Write};
+use std::pin::Pin;
+use std::sync::atomic::{AtomicUsize, Ordering};
+use std::sync::Arc;
+use std::task::{Context, Poll, Waker};
 
-pub fn run_for_c12_c20(_cx: &Cx, _c20: bool) -> Acc {
-    Acc::new()
+pub type SBody = http_serve::Body<Bytes, HarnessError>;
+pub type SWriter = http_serve::BodyWriter<Bytes, HarnessError>;
+
+#[derive(Clone, Copy, Debug, PartialEq, Eq, Serialize, Deserialize)]
+pub enum Op {
+    Write(u32),
+    WriteAll(u32),
+    Flush,
+    FlushThenDrain,
+    PollUntilPending,
+    Poll(u8),
+    Sample,
+    Abort,
+    DropBody,
 }
 
-pub fn replay_for_c12_c20(_cx: &Cx, _phase: &str, _case: &Value, _acc: &mut Acc, _c20: bool) -> Check {
-    fail("replay-decode", "unknown phase")
+#[derive(Clone, Copy, Debug, PartialEq, Eq, Serialize, Deserialize)]
+pub enum Payload {
+    /// incompressible
+    Hash,
+    /// highly compressible
+    Runs,
+    Mixed,
+    Zeros,
+}
+
+#[derive(Clone, Debug, Serialize, Deserialize)]
+pub struct SCase {
+    /// `Some(level)` = gzip negotiated with that level (1..=9)
+    pub gzip: Option<u32>,
+    pub chunk: usize,
+    pub payload: Payload,
+    pub ops: Vec<Op>,
+    pub extra_polls: usize,
+}
+
+pub fn payload_byte(p: Payload, i: u64) -> u8 {
+    match p {
+        Payload::Hash => content_byte(i),
+        Payload::Runs => (i / 97) as u8,
+        Payload::Mixed => {
+            if (i / 512) % 2 == 0 {
+                content_byte(i)
+            } else {
+                (i / 64) as u8
+            }
+        }
+        Payload::Zeros => 0,
+    }
+}
+
+pub fn build(gzip: Option<u32>, chunk: usize) -> (crate::entity::RespHead, SBody, Option<SWriter>) {
+    let mut b = http::Request::builder().method("GET").uri("/");
+    if gzip.is_some() {
+        b = b.header("accept-encoding", "gzip");
+    }
+    let req = b.body(()).unwrap();
+    let mut sb = http_serve::streaming_body(&req).with_chunk_size(chunk);
+    if let Some(l) = gzip {
+        sb = sb.with_gzip_level(l);
+    }
+    let (resp, w) = sb.build::<Bytes, HarnessError>();
+    let head = crate::entity::RespHead::of(&resp);
+    (head, resp.into_body(), w)
+}
+
+pub struct SRun {
+    pub trace: Trace<HarnessError>,
+    pub accepted: Vec<u8>,
+    pub received: Vec<u8>,
+    /// Categorised problems: prefixes `w:` (writer behaviour on a live body / delivery), `gz:`
+    /// (gzip validity), `abort:`, `drop:`, `internal:`.
+    pub issues: Vec<Fail>,
+    pub aborted: bool,
+    pub body_dropped: bool,
+    pub partial_write: bool,
+    pub chunk_crossed: bool,
+    pub poll_between_ops: bool,
+    pub mid_flush: bool,
+    pub accepted_after_drop: usize,
+    pub frames_ge2: bool,
+}
+
+struct Interp {
+    body: Option<Pin<Box<SBody>>>,
+    cw: Arc<CountingWaker>,
+    waker: Waker,
+    t: Trace<HarnessError>,
+    terminal_seen: bool,
+    received: Vec<u8>,
+}
+
+impl Interp {
+    /// One sample (+ poll if `poll`). Returns the event.
+    fn step(&mut self, poll: bool) -> Option<Ev<HarnessError>> {
+        let body = self.body.as_mut()?;
+        let h = body.size_hint();
+        let eos = body.is_end_stream();
+        let ev = if poll {
+            let mut cx = Context::from_waker(&self.waker);
+            match crate::panics::guard(|| body.as_mut().poll_frame(&mut cx)) {
+                Err(m) => Ev::Panic(m),
+                Ok(Poll::Pending) => Ev::Pending,
+                Ok(Poll::Ready(None)) => Ev::End,
+                Ok(Poll::Ready(Some(Err(e)))) => Ev::Err(e),
+                Ok(Poll::Ready(Some(Ok(f)))) => match f.into_data() {
+                    Ok(d) => {
+                        self.received.extend_from_slice(&d);
+                        if !self.terminal_seen {
+                            self.t.frames += 1;
+                            if d.is_empty() {
+                                self.t.empty_frames += 1;
+                            }
+                        }
+                        self.t.delivered += d.len() as u64;
+                        Ev::Data(d.len())
+                    }
+                    Err(_) => Ev::Data(0),
+                },
+            }
+        } else {
+            Ev::Pending // a pure sample is recorded like a poll that had nothing to report
+        };
+        let st = Step {
+            lower: h.lower(),
+            upper: h.upper(),
+            eos,
+            ev: ev.clone(),
+        };
+        if self.terminal_seen {
+            self.t.extra.push(st);
+        } else {
+            let term = matches!(ev, Ev::End | Ev::Err(_));
+            self.t.steps.push(st);
+            if term {
+                self.terminal_seen = true;
+            }
+        }
+        if poll {
+            Some(ev)
+        } else {
+            None
+        }
+    }
+
+    /// Polls until Pending / terminal / panic; returns the last event.
+    fn poll_until_pending(&mut self) -> Option<Ev<HarnessError>> {
+        let mut last = None;
+        for _ in 0..1_000_000 {
+            let ev = self.step(true)?;
+            let stop = !matches!(ev, Ev::Data(_));
+            last = Some(ev);
+            if stop {
+                break;
+            }
+        }
+        last
+    }
+}
+
+fn issue(v: &mut Vec<Fail>, sig: &str, msg: String) {
+    if !v.iter().any(|f| f.sig == sig) {
+        v.push(Fail { sig: sig.into(), msg });
+    }
+}
+
+pub fn execute(c: &SCase) -> SRun {
+    execute_with(c, false)
+}
+
+/// `light`: skip the gzip decoding oracles (for C12 / C20, which only need the trace).
+pub fn execute_with(c: &SCase, light: bool) -> SRun {
+    let (_head, body, w) = build(c.gzip, c.chunk);
+    let mut w = w;
+    let cw = Arc::new(CountingWaker(AtomicUsize::new(0)));
+    let mut it = Interp {
+        body: Some(Box::pin(body)),
+        waker: Waker::from(cw.clone()),
+        cw,
+        t: Trace {
+            steps: vec![],
+            extra: vec![],
+            body: vec![],
+            delivered: 0,
+            frames: 0,
+            empty_frames: 0,
+            pendings: 0,
+            capped: false,
+            stalled: false,
+        },
+        terminal_seen: false,
+        received: Vec::new(),
+    };
+    let gz = c.gzip.is_some();
+    let decode = gz && !light;
+    let mut issues = Vec::new();
+    let mut accepted: Vec<u8> = Vec::new();
+    let mut pos = 0u64;
+    let mut aborted = false;
+    let mut body_dropped = false;
+    let mut failed_after_drop = false;
+    let mut accepted_after_drop = 0usize;
+    let mut model_buf = 0usize; // raw writer's partial chunk, per the model
+    let mut partial_write = false;
+    let mut chunk_crossed = false;
+    let mut poll_between_ops = false;
+    let mut mid_flush = false;
+    let mut producer_ops_seen = 0;
+    let mut polled_since_producer_op = false;
+    let mut unflushed_since_drop = false;
+    let mut gz_dirty = true; // the gzip header is pending until the first flush
+    let mut since_flush = 0usize;
+    let mut stop_early = false;
+    let mut abort_at_step: Option<usize> = None;
+
+    for (idx, op) in c.ops.iter().enumerate() {
+        let live = !aborted && !body_dropped;
+        match *op {
+            Op::Write(n) | Op::WriteAll(n) => {
+                let all = matches!(op, Op::WriteAll(_));
+                if producer_ops_seen > 0 && polled_since_producer_op {
+                    poll_between_ops = true;
+                }
+                producer_ops_seen += 1;
+                polled_since_producer_op = false;
+                let buf: Vec<u8> = (0..n as u64).map(|i| crate::props::stream::payload_byte(c.payload, pos + i)).collect();
+                let Some(wr) = w.as_mut() else { continue };
+                let r = crate::panics::guard(|| if all { wr.write_all(&buf).map(|_| buf.len()) } else { wr.write(&buf) });
+                match r {
+                    Err(m) => issue(&mut issues, "w:write-panic", format!("op {idx} {op:?} panicked: {m}")),
+                    Ok(Ok(_)) if all && n == 0 => {} // write_all(&[]) never reaches the writer
+                    Ok(Ok(k)) => {
+                        if aborted {
+                            issue(&mut issues, "abort:write-ok-after-abort", format!("op {idx} {op:?} succeeded after abort"));
+                        }
+                        if failed_after_drop {
+                            issue(&mut issues, "drop:success-after-failure", format!("op {idx} {op:?} succeeded although an earlier call already failed after the body was dropped"));
+                        }
+                        if k > buf.len() {
+                            issue(&mut issues, "w:write-accepted-too-much", format!("op {idx} write of {n} bytes returned {k}"));
+                        }
+                        if live && n > 0 && k == 0 {
+                            issue(&mut issues, "w:write-accepted-zero", format!("op {idx} write of {n} bytes to a live body accepted 0 bytes"));
+                        }
+                        let k = k.min(buf.len());
+                        if k < buf.len() {
+                            partial_write = true;
+                        }
+                        accepted.extend_from_slice(&buf[..k]);
+                        pos += k as u64;
+                        if k > 0 {
+                            gz_dirty = true;
+                        }
+                        since_flush += k;
+                        if body_dropped {
+                            accepted_after_drop += k;
+                            if !gz && model_buf + k >= c.chunk {
+                                issue(
+                                    &mut issues,
+                                    "drop:chunk-completing-write-ok",
+                                    format!("op {idx} {op:?} completed a chunk after the body was dropped and still returned Ok"),
+                                );
+                            }
+                            if k > 0 {
+                                unflushed_since_drop = true;
+                            }
+                        }
+                        if !gz {
+                            if model_buf + k >= c.chunk {
+                                chunk_crossed = true;
+                            }
+                            model_buf = (model_buf + k) % c.chunk;
+                        }
+                    }
+                    Ok(Err(e)) => {
+                        if live {
+                            issue(&mut issues, "w:write-failed-live", format!("op {idx} {op:?} on a live body failed: {e}"));
+                        }
+                        if body_dropped {
+                            failed_after_drop = true;
+                        }
+                    }
+                }
+            }
+            Op::Flush | Op::FlushThenDrain => {
+                if producer_ops_seen > 0 && polled_since_producer_op {
+                    poll_between_ops = true;
+                }
+                producer_ops_seen += 1;
+                polled_since_producer_op = false;
+                if let Some(wr) = w.as_mut() {
+                    match crate::panics::guard(|| wr.flush()) {
+                        Err(m) => issue(&mut issues, "w:flush-panic", format!("op {idx} flush panicked: {m}")),
+                        Ok(Ok(())) => {
+                            if aborted {
+                                issue(&mut issues, "abort:flush-ok-after-abort", format!("op {idx} flush succeeded after abort"));
+                            }
+                            if failed_after_drop {
+                                issue(&mut issues, "drop:success-after-failure", format!("op {idx} flush succeeded although an earlier call already failed after the body was dropped"));
+                            }
+                            if body_dropped && ((gz && gz_dirty) || (!gz && (unflushed_since_drop || model_buf > 0))) {
+                                issue(
+                                    &mut issues,
+                                    "drop:flush-ok-with-unflushed-bytes",
+                                    format!("op {idx} flush returned Ok after the body was dropped although accepted bytes were still unflushed"),
+                                );
+                            }
+                            model_buf = 0;
+                            gz_dirty = false;
+                            if !matches!(op, Op::FlushThenDrain) {
+                                since_flush = 0;
+                            }
+                            if !accepted.is_empty() && idx + 1 < c.ops.len() {
+                                mid_flush = true;
+                            }
+                        }
+                        Ok(Err(e)) => {
+                            if live {
+                                issue(&mut issues, "w:flush-failed-live", format!("op {idx} flush on a live body failed: {e}"));
+                            }
+                            if body_dropped {
+                                failed_after_drop = true;
+                            }
+                        }
+                    }
+                }
+                if matches!(op, Op::FlushThenDrain) && it.body.is_some() {
+                    polled_since_producer_op = true;
+                    let last = it.poll_until_pending();
+                    if live {
+                        if gz && !decode {
+                        } else if gz {
+                            let d = gunzip_prefix(&it.received);
+                            if matches!(d.status, Status::Invalid(_)) || d.out != accepted {
+                                // Diagnose: does a second flush make everything decodable? With more than
+                                // 32 KiB written since the last flush this is the known incomplete sync
+                                // flush of the pinned flate2 (see KNOWN_FINDINGS.txt); anything else is new.
+                                let missing = accepted.len().saturating_sub(d.out.len());
+                                let mut second_fixes = false;
+                                if let Some(wr) = w.as_mut() {
+                                    if wr.flush().is_ok() {
+                                        it.poll_until_pending();
+                                        let d2 = gunzip_prefix(&it.received);
+                                        second_fixes = !matches!(d2.status, Status::Invalid(_)) && d2.out == accepted;
+                                    }
+                                }
+                                let known_shape = second_fixes && since_flush >= 32_768 && missing < 65_536 && accepted.starts_with(&d.out);
+                                issue(
+                                    &mut issues,
+                                    if known_shape { "gz:flush-incomplete-after-large-write" } else { "gz:flush-not-decodable" },
+                                    format!(
+                                        "after flush (op {idx}) a streaming decoder fed the {} bytes available reproduces {} of the {} bytes written (status {:?}; {} bytes written since the previous flush; a second flush {} it)",
+                                        it.received.len(),
+                                        d.out.len(),
+                                        accepted.len(),
+                                        d.status,
+                                        since_flush,
+                                        if second_fixes { "repairs" } else { "does not repair" }
+                                    ),
+                                );
+                                stop_early = true;
+                            }
+                        } else if it.received != accepted {
+                            issue(
+                                &mut issues,
+                                "w:flush-not-visible",
+                                format!(
+                                    "after flush (op {idx}) the consumer had {} bytes available without further producer action, {} were accepted",
+                                    it.received.len(),
+                                    accepted.len()
+                                ),
+                            );
+                        }
+                        if !matches!(last, Some(Ev::Pending)) {
+                            issue(&mut issues, "w:terminal-while-writer-live", format!("op {idx}: body reported {:?} while the writer is alive", last));
+                        }
+                    }
+                }
+            }
+            Op::PollUntilPending => {
+                polled_since_producer_op = true;
+                it.poll_until_pending();
+            }
+            Op::Poll(k) => {
+                polled_since_producer_op = true;
+                for _ in 0..k {
+                    if it.step(true).is_none() {
+                        break;
+                    }
+                }
+            }
+            Op::Sample => {
+                it.step(false);
+            }
+            Op::Abort => {
+                if let Some(wr) = w.as_mut() {
+                    if !aborted {
+                        wr.abort(HarnessError::Injected(7000 + idx as u32));
+                        aborted = true;
+                        if !it.terminal_seen && it.body.is_some() {
+                            abort_at_step = Some(it.t.steps.len());
+                        }
+                    }
+                }
+            }
+            Op::DropBody => {
+                if it.body.take().is_some() {
+                    body_dropped = true;
+                    if !gz {
+                        unflushed_since_drop = model_buf > 0;
+                    }
+                }
+            }
+        }
+        if matches!(op, Op::FlushThenDrain) {
+            since_flush = 0;
+        }
+        if stop_early {
+            break;
+        }
+        // Prefix invariant (identity coding): what was received is a prefix of what was accepted.
+        if !gz && !(it.received.len() <= accepted.len() && accepted[..it.received.len()] == it.received[..]) {
+            issue(
+                &mut issues,
+                "w:not-a-prefix",
+                format!("after op {idx} the {} bytes received are not a prefix of the {} bytes accepted", it.received.len(), accepted.len()),
+            );
+        }
+    }
+
+    // Drop the writer, then drain.
+    let had_abort_or_drop = c.ops.iter().any(|o| matches!(o, Op::Abort | Op::DropBody));
+    drop(w.take());
+    if it.body.is_some() {
+        if !it.terminal_seen {
+            let last = it.poll_until_pending();
+            if matches!(last, Some(Ev::Pending)) {
+                it.t.stalled = true;
+                issue(
+                    &mut issues,
+                    if aborted { "abort:pending-after-writer-gone" } else { "w:pending-after-writer-dropped" },
+                    format!("the writer is gone but the body returned Pending (woken {} times): the consumer would sleep forever", it.cw.0.load(Ordering::SeqCst)),
+                );
+            }
+        }
+        for _ in 0..c.extra_polls {
+            it.step(true);
+        }
+    }
+    let frames_ge2 = it.t.frames >= 2;
+    if it.t.empty_frames > 0 {
+        issue(&mut issues, "w:empty-frame", format!("the body yielded {} empty data frame(s)", it.t.empty_frames));
+    }
+    let received = it.received.clone();
+    if !had_abort_or_drop && it.body.is_some() && !stop_early {
+        match it.t.terminal() {
+            Some(Ev::End) => {}
+            other => issue(&mut issues, "w:not-clean-end", format!("writer dropped without abort but the terminal event is {:?}", other)),
+        }
+        if gz && !decode {
+        } else if gz {
+            let d = gunzip_prefix(&received);
+            match d.status {
+                Status::Complete { consumed, crc_ok, isize_ok } => {
+                    if !crc_ok {
+                        issue(&mut issues, "gz:crc", "gzip trailer CRC-32 does not match the decompressed data".into());
+                    }
+                    if !isize_ok {
+                        issue(&mut issues, "gz:isize", "gzip trailer ISIZE does not match the decompressed length".into());
+                    }
+                    if consumed != received.len() {
+                        issue(&mut issues, "gz:trailing-bytes", format!("{} bytes follow the gzip member", received.len() - consumed));
+                    }
+                    if d.out != accepted {
+                        issue(
+                            &mut issues,
+                            "gz:content",
+                            format!("gzip member decompresses to {} bytes, {} were written (first difference at {:?})", d.out.len(), accepted.len(), d.out.iter().zip(accepted.iter()).position(|(a, b)| a != b)),
+                        );
+                    }
+                }
+                Status::NeedMore => issue(&mut issues, "gz:truncated", format!("the {} body bytes are an incomplete gzip member ({} bytes decoded, {} written)", received.len(), d.out.len(), accepted.len())),
+                Status::Invalid(m) => issue(&mut issues, "gz:invalid", format!("body is not a valid gzip member: {m}")),
+            }
+            // Cross-check the oracle itself against flate2's decoder.
+            let mut z = flate2::read::MultiGzDecoder::new(&received[..]);
+            let mut out2 = Vec::new();
+            let r2 = z.read_to_end(&mut out2);
+            let ours_ok = !issues.iter().any(|i| i.sig.starts_with("gz:"));
+            if ours_ok != (r2.is_ok() && out2 == accepted) {
+                issue(
+                    &mut issues,
+                    "internal:decoders-disagree",
+                    format!("own decoder says ok={ours_ok}, flate2 says {:?} with {} bytes", r2.map(|_| ()), out2.len()),
+                );
+            }
+        } else if received != accepted {
+            issue(
+                &mut issues,
+                "w:final-mismatch",
+                format!("{} bytes were accepted, {} were delivered (first difference at {:?})", accepted.len(), received.len(), received.iter().zip(accepted.iter()).position(|(a, b)| a != b)),
+            );
+        }
+    }
+    // Abort: the next terminal event is the aborting error.
+    if let Some(ai) = c.ops.iter().position(|o| matches!(o, Op::Abort)) {
+        let drop_first = c.ops[..ai].iter().any(|o| matches!(o, Op::DropBody));
+        let terminal_before = false;
+        if !drop_first && it.body.is_some() && !terminal_before {
+            match it.t.terminal() {
+                Some(Ev::Err(HarnessError::Injected(id))) if *id == 7000 + ai as u32 => {}
+                other => issue(&mut issues, "abort:terminal-not-the-error", format!("after abort the terminal event is {:?}, expected Err(Injected({}))", other, 7000 + ai)),
+            }
+            if let Some(from) = abort_at_step {
+                if let Some((i, _)) = it.t.steps.iter().enumerate().skip(from).find(|(_, s)| s.eos) {
+                    issue(
+                        &mut issues,
+                        "abort:eos-while-error-pending",
+                        format!("is_end_stream() was true at step {i}, after the abort and before the error was delivered"),
+                    );
+                }
+            }
+            if decode {
+                let d = gunzip_prefix(&received);
+                if matches!(d.status, Status::Invalid(_)) || !accepted.starts_with(&d.out) {
+                    issue(&mut issues, "abort:not-a-prefix", "bytes delivered before the abort error do not decode to a prefix of the bytes written".into());
+                }
+            }
+        }
+    }
+    SRun {
+        trace: it.t,
+        accepted,
+        received,
+        issues,
+        aborted,
+        body_dropped,
+        partial_write,
+        chunk_crossed,
+        poll_between_ops,
+        mid_flush,
+        accepted_after_drop,
+        frames_ge2,
+    }
+}
+
+pub fn first_issue(run: &SRun, prefixes: &[&str]) -> Option<Fail> {
+    run.issues.iter().find(|i| prefixes.iter().any(|p| i.sig.starts_with(p))).cloned()
+}
+
+fn internal(run: &SRun) -> Option<Fail> {
+    first_issue(run, &["internal:"])
+}
+
+// ------------------------------------------------------------------------------------------------
+// Generators.
+
+pub fn sizes_for(c: usize) -> Vec<u32> {
+    let c = c as u32;
+    let mut v = vec![0, 1, c.saturating_sub(1), c, c + 1, 2 * c, 3 * c];
+    v.sort();
+    v.dedup();
+    v
+}
+
+pub const RAW_CHUNKS: &[usize] = &[1, 2, 3, 4, 7, 4096, 65536];
+pub const GZ_CHUNKS: &[usize] = &[1, 2, 3, 5, 10, 18, 64, 4096, 65536];
+
+pub fn op_strategy(chunk: usize, with_faults: bool, gzip: bool) -> BoxedStrategy<Op> {
+    let size = if gzip {
+        prop_oneof![4 => proptest::sample::select(vec![0u32, 1, 2, 7, 100, 1000, 5000]), 1 => 0u32..20_000].boxed()
+    } else {
+        prop_oneof![4 => proptest::sample::select(sizes_for(chunk)), 1 => 0u32..(3 * chunk as u32 + 2).min(200_000)].boxed()
+    };
+    let base = prop_oneof![
+        4 => size.clone().prop_map(Op::Write),
+        3 => size.prop_map(Op::WriteAll),
+        2 => Just(Op::Flush),
+        2 => Just(Op::FlushThenDrain),
+        1 => Just(Op::PollUntilPending),
+        1 => (1u8..4).prop_map(Op::Poll),
+        1 => Just(Op::Sample),
+    ];
+    if with_faults {
+        prop_oneof![12 => base, 1 => Just(Op::Abort), 1 => Just(Op::DropBody)].boxed()
+    } else {
+        base.boxed()
+    }
+}
+
+pub fn payload_strategy() -> BoxedStrategy<Payload> {
+    prop_oneof![Just(Payload::Hash), Just(Payload::Runs), Just(Payload::Mixed), Just(Payload::Zeros)].boxed()
+}
+
+pub fn case_strategy(gzip: bool, with_faults: bool, max_ops: usize) -> BoxedStrategy<SCase> {
+    let chunks: &'static [usize] = if gzip { GZ_CHUNKS } else { RAW_CHUNKS };
+    (proptest::sample::select(chunks), 1u32..=9, payload_strategy(), 0usize..=4)
+        .prop_flat_map(move |(chunk, level, payload, extra_polls)| {
+            (vec(op_strategy(chunk, with_faults, gzip), 0..max_ops), Just((chunk, level, payload, extra_polls)))
+        })
+        .prop_map(move |(ops, (chunk, level, payload, extra_polls))| SCase {
+            gzip: if gzip { Some(level) } else { None },
+            chunk,
+            payload,
+            ops,
+            extra_polls,
+        })
+        .boxed()
+}
+
+/// All op sequences of length `n` over the small alphabet for chunk size `c`.
+pub fn enumerate_ops(c: usize, n: usize, f: &mut dyn FnMut(&[Op])) {
+    let mut alphabet: Vec<Op> = Vec::new();
+    for s in sizes_for(c) {
+        alphabet.push(Op::Write(s));
+        alphabet.push(Op::WriteAll(s));
+    }
+    alphabet.push(Op::Flush);
+    alphabet.push(Op::FlushThenDrain);
+    alphabet.push(Op::PollUntilPending);
+    fn rec(alpha: &[Op], n: usize, cur: &mut Vec<Op>, f: &mut dyn FnMut(&[Op])) {
+        if cur.len() == n {
+            f(cur);
+            return;
+        }
+        for o in alpha {
+            cur.push(*o);
+            rec(alpha, n, cur, f);
+            cur.pop();
+        }
+    }
+    rec(&alphabet, n, &mut Vec::new(), f);
+}
+
+// ------------------------------------------------------------------------------------------------
+// C08 / C09.
+
+pub const META_C08: Meta = Meta {
+    id: "C08",
+    level: "exploration",
+    rule: "Stateful/model-based: operation histories over {write(n), write_all(n), flush, flush-then-drain, poll-until-pending, poll(k), sample} with n in {0,1,c-1,c,c+1,2c,3c,random}, then drop, interpreted against streaming_body (identity coding) and an in-memory model of accepted bytes. Exhaustive for all histories of <= 4 operations (thorough 5) over the 17-op alphabet with chunk sizes {1,2,3,4,7}; proptest vec(op, 0..40) for chunk sizes up to 65536. Payload bytes are a running position hash so order and duplication are visible. Non-trivial = >= 2 writes with a partial acceptance or a chunk boundary crossed, and a poll between two producer operations; distinct by fingerprint of history.",
+    assumptions: &["single-threaded interleaving of producer operations and consumer polls (schedules are C10's subject)"],
+};
+
+pub const META_C09: Meta = Meta {
+    id: "C09",
+    level: "exploration",
+    rule: "Same history generator as C08 with gzip negotiated: levels 1..=9 x chunk sizes {1,2,3,5,10,18,64,4096,65536} x payload classes {incompressible position hash, long runs, mixed, zeros, empty}. Oracle: own RFC 1951/1952 prefix-restartable decoder (cross-checked against flate2's decoder on every final body; disagreement = inconclusive): after drop exactly one member, CRC-32 and ISIZE correct, no trailing bytes, output == bytes written; after every flush-then-drain the decoder fed only the frames so far reproduces every byte written before the flush. Non-trivial = payload > 0 with a mid-stream flush, or chunk size < 18, or empty payload; distinct by fingerprint of history.",
+    assumptions: &["the harness inflater implements RFC 1951/1952 correctly (unit-tested against flate2 at all levels; cross-checked on every case)"],
+};
+
+fn check_stream(c: &SCase, acc: &mut Acc, gz: bool) -> Check {
+    let run = execute(c);
+    if let Some(f) = internal(&run) {
+        let gzs: Vec<String> = run.issues.iter().filter(|i| i.sig.starts_with("gz:")).map(|i| format!("{}: {}", i.sig, i.msg)).collect();
+        acc.internal_errors.push(format!("{}: {}; own decoder's complaints {:?}; case {}", f.sig, f.msg, gzs, serde_json::to_string(c).unwrap_or_default()));
+        return Ok(());
+    }
+    let prefixes: &[&str] = if gz { &["gz:", "w:"] } else { &["w:"] };
+    if let Some(f) = first_issue(&run, prefixes) {
+        return fail(f.sig.clone(), format!("{}; case {}; trace {}", f.msg, serde_json::to_string(c).unwrap_or_default(), run.trace.summary()));
+    }
+    let n_writes = c.ops.iter().filter(|o| matches!(o, Op::Write(n) | Op::WriteAll(n) if *n > 0)).count();
+    let (label, nontrivial) = if gz {
+        let l = if run.accepted.is_empty() {
+            "gzip:empty-payload"
+        } else if run.mid_flush {
+            "gzip:mid-stream-flush"
+        } else if c.chunk < 18 {
+            "gzip:tiny-chunks"
+        } else {
+            "gzip:plain"
+        };
+        (l, run.accepted.is_empty() || run.mid_flush || c.chunk < 18)
+    } else {
+        let nt = n_writes >= 2 && (run.partial_write || run.chunk_crossed) && run.poll_between_ops;
+        (if nt { "identity:interleaved" } else if run.chunk_crossed { "identity:chunk-crossed" } else { "identity:simple" }, nt)
+    };
+    acc.note(label, nontrivial, fingerprint(c), || json!({"case": c, "accepted": run.accepted.len(), "received": run.received.len(), "trace": run.trace.summary()}));
+    Ok(())
+}
+
+pub fn run_c08(cx: &Cx) -> Acc {
+    let mut acc = Acc::new();
+    let max_n = cx.tier.pick(4usize, 5usize);
+    let units: Vec<(usize, usize)> = [1usize, 2, 3, 4, 7].iter().flat_map(|c| (0..=max_n).map(move |n| (*c, n))).collect();
+    acc.merge(par_units(cx, "exhaustive-short", &units, true, "every history of n operations over the 17-op alphabet for chunk sizes {1,2,3,4,7}", |cx, &(c, n), acc| {
+        enumerate_ops(c, n, &mut |ops| {
+            let case = SCase {
+                gzip: None,
+                chunk: c,
+                payload: Payload::Hash,
+                ops: ops.to_vec(),
+                extra_polls: 1,
+            };
+            acc.run_case(cx, "exhaustive-short", &case, |acc| check_stream(&case, acc, false));
+        });
+    }));
+    let n = cx.tier.pick(1u64, 20u64);
+    acc.merge(par_proptest(cx, "random", 100_000 * n, || case_strategy(false, false, 40), |c, acc| check_stream(c, acc, false)));
+    acc
+}
+
+pub fn run_c09(cx: &Cx) -> Acc {
+    let mut acc = Acc::new();
+    // Short histories exhaustively for two tiny chunk sizes and three levels.
+    let max_n = cx.tier.pick(3usize, 4usize);
+    let units: Vec<(usize, u32, usize)> = [1usize, 5].iter().flat_map(|c| [1u32, 6, 9].into_iter().flat_map(move |l| (0..=max_n).map(move |n| (*c, l, n)))).collect();
+    acc.merge(par_units(cx, "exhaustive-short", &units, true, "every history of n operations over the 17-op alphabet, chunk sizes {1,5}, levels {1,6,9}", |cx, &(c, level, n), acc| {
+        enumerate_ops(c, n, &mut |ops| {
+            let case = SCase {
+                gzip: Some(level),
+                chunk: c,
+                payload: if n % 2 == 0 { Payload::Runs } else { Payload::Hash },
+                ops: ops.to_vec(),
+                extra_polls: 1,
+            };
+            acc.run_case(cx, "exhaustive-short", &case, |acc| check_stream(&case, acc, true));
+        });
+    }));
+    let n = cx.tier.pick(1u64, 20u64);
+    acc.merge(par_proptest(cx, "random", 20_000 * n, || case_strategy(true, false, 40), |c, acc| check_stream(c, acc, true)));
+    // Large payloads (up to 256 KiB) in a few writes.
+    acc.merge(par_proptest(
+        cx,
+        "large",
+        400 * n,
+        || {
+            (1u32..=9, proptest::sample::select(GZ_CHUNKS), payload_strategy(), vec((1u32..=262_144, any::<bool>()), 1..4)).prop_map(|(level, chunk, payload, ws)| SCase {
+                gzip: Some(level),
+                chunk: chunk.max(64),
+                payload,
+                ops: ws.into_iter().flat_map(|(n, fl)| if fl { vec![Op::WriteAll(n), Op::FlushThenDrain] } else { vec![Op::WriteAll(n)] }).collect(),
+                extra_polls: 1,
+            })
+        },
+        |c, acc| check_stream(c, acc, true),
+    ));
+    acc
+}
+
+fn dec(case: &Value) -> Result<SCase, Fail> {
+    serde_json::from_value(case.clone()).map_err(|e| Fail {
+        sig: "replay-decode".into(),
+        msg: e.to_string(),
+    })
+}
+
+pub fn replay_c08(_cx: &Cx, _phase: &str, case: &Value, acc: &mut Acc) -> Check {
+    check_stream(&dec(case)?, acc, false)
+}
+
+pub fn replay_c09(_cx: &Cx, _phase: &str, case: &Value, acc: &mut Acc) -> Check {
+    check_stream(&dec(case)?, acc, true)
+}
+
+pub fn health_c08(acc: &Acc) -> Vec<String> {
+    let mut v = Vec::new();
+    for l in ["identity:interleaved", "identity:chunk-crossed"] {
+        if acc.label(l) < 100 {
+            v.push(format!("label {l} seen only {} times", acc.label(l)));
+        }
+    }
+    v
+}
+
+pub fn health_c09(acc: &Acc) -> Vec<String> {
+    let mut v = Vec::new();
+    for l in ["gzip:empty-payload", "gzip:mid-stream-flush", "gzip:tiny-chunks"] {
+        if acc.label(l) < 100 {
+            v.push(format!("label {l} seen only {} times", acc.label(l)));
+        }
+    }
+    v
+}
+
+// ------------------------------------------------------------------------------------------------
+// C12 / C20 on streaming traces.
+
+fn check_trace(c: &SCase, acc: &mut Acc, c20: bool) -> Check {
+    let run = execute_with(c, true);
+    let t = &run.trace;
+    let what = if c.gzip.is_some() { "streaming-gzip" } else { "streaming-identity" };
+    let ctx = || format!("case {}", serde_json::to_string(c).unwrap_or_default());
+    let label = format!(
+        "{what}:{}",
+        match t.terminal() {
+            Some(Ev::End) => "clean-end",
+            Some(Ev::Err(_)) => "abort",
+            _ => "no-terminal",
+        }
+    );
+    if c20 {
+        if t.steps.iter().any(|s| matches!(s.ev, Ev::Panic(_))) {
+            acc.count("panic-before-terminal(see C08/C11)");
+            return Ok(());
+        }
+        check_terminated_stays(t, what).map_err(|f| Fail { sig: f.sig, msg: format!("{}; {}", f.msg, ctx()) })?;
+        acc.note(&label, t.ended_err().is_some() && !t.extra.is_empty(), fingerprint(c), || json!({"case": c, "trace": t.summary()}));
+    } else {
+        if run.body_dropped {
+            return Ok(());
+        }
+        check_eos_truthful(t, what).map_err(|f| Fail { sig: f.sig, msg: format!("{}; {}", f.msg, ctx()) })?;
+        check_hints(t, false, what).map_err(|f| Fail { sig: f.sig, msg: format!("{}; {}", f.msg, ctx()) })?;
+        let changed = t.steps.len() >= 3 && t.steps.windows(2).any(|w| w[0].lower != w[1].lower || w[0].upper != w[1].upper);
+        acc.note(&label, changed, fingerprint(c), || json!({"case": c, "trace": t.summary()}));
+    }
+    Ok(())
+}
+
+fn trace_strategy() -> BoxedStrategy<SCase> {
+    prop_oneof![7 => case_strategy(false, true, 24), 1 => case_strategy(true, true, 8)].boxed()
+}
+
+pub fn run_for_c12_c20(cx: &Cx, c20: bool) -> Acc {
+    let mut acc = Acc::new();
+    let n = cx.tier.pick(1u64, 15u64);
+    acc.merge(par_proptest(cx, "streaming", 60_000 * n, trace_strategy, |c, acc| check_trace(c, acc, c20)));
+    // Short histories with an abort at every position, exhaustively (chunk size 2).
+    let units: Vec<usize> = (0..=3).collect();
+    acc.merge(par_units(cx, "streaming-abort-positions", &units, true, "every history of n <= 3 operations (chunk 2) with an abort inserted at every position, polled/sampled before and after", |cx, &n, acc| {
+        enumerate_ops(2, n, &mut |ops| {
+            for at in 0..=ops.len() {
+                let mut v: Vec<Op> = ops[..at].to_vec();
+                v.push(Op::Sample);
+                v.push(Op::Abort);
+                v.push(Op::Sample);
+                v.extend_from_slice(&ops[at..]);
+                let case = SCase {
+                    gzip: None,
+                    chunk: 2,
+                    payload: Payload::Hash,
+                    ops: v,
+                    extra_polls: 1 + at % 4,
+                };
+                acc.run_case(cx, "streaming-abort-positions", &case, |acc| check_trace(&case, acc, c20));
+            }
+        });
+    }));
+    acc
+}
+
+pub fn replay_for_c12_c20(_cx: &Cx, phase: &str, case: &Value, acc: &mut Acc, c20: bool) -> Check {
+    if phase.starts_with("streaming") {
+        check_trace(&dec(case)?, acc, c20)
+    } else {
+        fail("replay-decode", format!("unknown phase {phase}"))
+    }
 }
